@@ -1,6 +1,6 @@
 """C19 — a writer can be reused: successive dumps are independent (E7 per-call state reset)."""
 from engine.mir import CalleeView, norm
-from engine.origin import Origin, strip, show, root
+from engine.origin import Origin, strip, show, root, core, is_const, walk
 from engine.paths import must_pass, witness_path
 
 PROPERTY = "C19"
@@ -305,8 +305,47 @@ def rule_setters_verbatim(ctx, R="C19/setters-verbatim", only=None):
     return n
 
 
+def rule_fresh_writer(ctx, R="C19/fresh-writer"):
+    """'a freshly configured writer': MinidumpWriter::new(pid, tid) names the target by its two arguments (in that order) and starts with
+    every option off / empty and no per-dump state — what dump() resets to is what new() starts from"""
+    from engine.summ import return_origins
+    b = ctx.body(R, MW + "::new")
+    if b is None:
+        return
+    rets = return_origins(ctx.prog, b.short) or []
+    ok_any = False
+    for e in rets:
+        e = strip(e)
+        if e[0] != "agg":
+            continue
+        ok_any = True
+        d = {k: strip(v) for k, v in e[3]}
+        want_param = {"process_id": ("param", 1), "blamed_thread": ("param", 2)}
+        for f, w in want_param.items():
+            ctx.check(core(d.get(f, ("?",))) == w, R, ("field", f), b.where(0), "%s <- argument %d" % (f, w[1]), "%s <- %s" % (f, show(d.get(f, ("?",)))[:60]))
+
+        def is_none(v):
+            return v[0] == "agg" and v[2] == "None"
+
+        def is_empty(v):
+            return v[0] == "call" and v[1].split("::")[-1] in ("new", "default") and not v[2]
+        for f in ("minidump_size_limit", "principal_mapping_address", "principal_mapping", "crash_context", "direct_auxv_dump_info", "crashing_thread_context"):
+            ctx.check(f in d and is_none(d[f]), R, ("field", f), b.where(0), "%s starts as None" % f, "%s starts as %s" % (f, show(d.get(f, ("?",)))[:60]), nontrivial=False)
+        for f in ("skip_stacks_if_mapping_unreferenced", "sanitize_stack"):
+            ctx.check(f in d and is_const(core(d[f])) and core(d[f])[1] == 0, R, ("field", f), b.where(0), "%s starts off" % f, "%s starts as %s" % (f, show(d.get(f, ("?",)))[:60]), nontrivial=False)
+        for f in ("user_mapping_list", "app_memory", "memory_blocks"):
+            ctx.check(f in d and is_empty(d[f]), R, ("field", f), b.where(0), "%s starts empty" % f, "%s starts as %s" % (f, show(d.get(f, ("?",)))[:60]), nontrivial=False)
+        known = set(want_param) | {"minidump_size_limit", "principal_mapping_address", "principal_mapping", "crash_context", "direct_auxv_dump_info", "crashing_thread_context",
+                                   "skip_stacks_if_mapping_unreferenced", "sanitize_stack", "user_mapping_list", "app_memory", "memory_blocks", "stop_timeout"}
+        extra = sorted(set(d) - known)
+        ctx.check(not extra, R, ("fields", "no-unreviewed-state"), b.where(0), "MinidumpWriter has no field outside the reviewed configuration / per-dump state",
+                  "MinidumpWriter has new field(s) %s: decide whether they are configuration (set only by setters) or per-dump state (reset in dump())" % extra)
+    ctx.check(ok_any, R, "shape", b.where(0), "new() returns a struct literal", "cannot read the value new() returns", nontrivial=False)
+
+
 def run(ctx):
     rule_stale_field(ctx)
     rule_config_preserved(ctx)
     rule_setters_verbatim(ctx)
+    rule_fresh_writer(ctx)
     rule_fresh_locals(ctx)
